@@ -38,7 +38,9 @@ def gen_hostilecfg():
     # --- parse_array capacity (F4) --------------------------------------------------------
     p = "src/protocol/stateless.rs"
     t = src(p)
-    arr = _sq(fn_body(t, "parse_array", p))
+    # with the nesting limit the loop lives in `parse_array_nested` (`parse_array` is a test-only wrapper)
+    arr_fn = "parse_array_nested" if re.search(r"\bfn\s+parse_array_nested\b", t) else "parse_array"
+    arr = _sq(fn_body(t, arr_fn, p))
     if "let array_size = len as usize;" not in arr or "for _ in 0..array_size" not in arr:
         raise ExtractError(f"{p}: parse_array no longer has the expected shape")
     plain = "Vec::with_capacity(array_size)" in arr
@@ -48,19 +50,39 @@ def gen_hostilecfg():
         raise ExtractError(f"{p}: parse_array: capacity expression not recognised")
     out.append(f"/-- `parse_array` reserves `min(array_size, buf.len() - consumed)` elements (F4 fix) — {p} -/")
     out.append(f"def capRemaining : Bool := {_b(capped)}")
+    # --- terminator checks (F7) and type bytes: read here too so that C16 does not hang on C15's table ---
+    line = fn_body(t, "parse_line", p)
+    bulk = fn_body(t, "parse_bulk_str", p)
+    line_chk = re.search(r"buf\.get\(lf_index - 1\)\s*!=\s*Some\(&CR\)", line) is not None
+    bulk_chk = re.search(r"buf\.get\(end\.\.end \+ 2\)\s*!=\s*Some\(b\"\\r\\n\"", bulk) is not None
+    if "memchr(LF, buf)" not in line or line_chk != bulk_chk:
+        raise ExtractError(f"{p}: terminator checks have an unknown shape (line={line_chk}, bulk={bulk_chk})")
+    out.append(f"/-- `parse_line` / `parse_bulk_str` check their terminators (F7 fix) — {p} -/")
+    out.append(f"def strictTerm : Bool := {_b(line_chk)}")
+    resp_fn = "parse_resp_nested" if re.search(r"\bfn\s+parse_resp_nested\b", t) else "parse_resp"
+    rbody = fn_body(t, resp_fn, p)
+    arms = dict((k, l) for l, k in re.findall(r"b'((?:\\.|[^\\]))'\s*=>\s*\{.*?RespIndex::(\w+)\(v\)", rbody, flags=re.S))
+    if sorted(arms) != ["Arr", "Bulk", "Error", "Integer", "Simple"] or any(len(v) != 1 for v in arms.values()):
+        raise ExtractError(f"{p}: {resp_fn} arms not recognised: {arms}")
+    for k, nm in (("Error", "tError"), ("Simple", "tSimple"), ("Integer", "tInteger"), ("Bulk", "tBulk"), ("Arr", "tArr")):
+        out.append(f"def {nm} : UInt8 := {ord(arms[k])}  -- {p} {resp_fn}")
+    m = re.search(r"pub const LF: u8 = b'\\n';", src("src/protocol/decoder.rs"))
+    if not m:
+        raise ExtractError("src/protocol/decoder.rs: LF not found")
+    out.append("def LF : UInt8 := 10  -- src/protocol/decoder.rs")
     # --- nesting limit (F16b) ---------------------------------------------------------------
     m = re.search(r"const\s+MAX_NESTING\s*:\s*usize\s*=\s*([0-9_]+)\s*;", t)
     if m:
         n = int(m.group(1).replace("_", ""))
         body = _sq(fn_body(t, "parse_resp_nested", p))
         if not re.search(r"b'\*' => \{ if depth >= MAX_NESTING \{ return Err\(ParseError::InvalidProtocol\); \} "
-                         r"let \(mut v, consumed\) = parse_array\(next_buf, depth \+ 1\)\?;", body):
+                         r"let \(mut v, consumed\) = parse_array(?:_nested)?\(next_buf, depth \+ 1\)\?;", body):
             raise ExtractError(f"{p}: MAX_NESTING present but the check in parse_resp_nested is not recognised")
         if "parse_resp_nested(next_buf, depth)?" not in arr:
             raise ExtractError(f"{p}: parse_array does not thread the depth")
         out.append(f"def maxNesting : Option Nat := some {n}  -- {p} MAX_NESTING")
     else:
-        if "depth" in strip_comments(t).split("#[cfg(test)]")[0]:
+        if "depth" in strip_comments(t).split("mod tests")[0]:
             raise ExtractError(f"{p}: a depth parameter without MAX_NESTING: unknown shape")
         out.append(f"def maxNesting : Option Nat := none  -- {p}: no nesting limit")
     # --- EVAL numkeys (F5) ------------------------------------------------------------------
